@@ -399,6 +399,32 @@ def check_formats(case, opts, fails):
     return True
 
 
+def check_stdout(case, opts, fails):
+    """C19: standard output has no name: FASTA exactly when --fasta is given, otherwise the input format (single-end and
+    paired-end interleaved)."""
+    paired, rng = case.paired, case.rng
+    fasta = rng.random() < 0.6
+    args = list(opts) + (["--fasta"] if fasta else []) + (["--interleaved"] if False else [])
+    if paired:
+        d = case.d
+        inter = os.path.join(d, "stdin_inter.fq")
+        recs = []
+        for a, b in zip(case.r1, case.r2):
+            recs += [a, b]
+        write_fastq(inter, recs)
+        args = [x for x in args] + ["--interleaved", inter]
+    else:
+        args = args + case.inputs()
+    import subprocess
+    r = subprocess.run([sys.executable, "-m", "cutadapt"] + [str(a) for a in args], capture_output=True, text=True, timeout=300)
+    if r.returncode != 0:
+        return False
+    body = r.stdout.lstrip()
+    if body and ((body[0] == ">") != fasta):
+        fails.append(("C19", args, f"standard output is {'FASTA' if body[0] == '>' else 'FASTQ'} although --fasta was {'given' if fasta else 'not given'} (FASTQ input)"))
+    return True
+
+
 def check_order(case, fails):
     """C10: option order on the command line does not matter; steps compose in the documented order."""
     d, paired, rng = case.d, case.paired, case.rng
@@ -653,8 +679,8 @@ def main():
                 did = check_cores(case, mods + [x for x in filt], fails)
             elif kind == "C19":
                 r_ = rng.random()
-                did = check_cores(case, mods, fails) if r_ < 0.3 else check_layout(case, mods, fails) if r_ < 0.6 else \
-                    check_formats(case, mods, fails)
+                did = check_cores(case, mods, fails) if r_ < 0.25 else check_layout(case, mods, fails) if r_ < 0.5 else \
+                    check_formats(case, mods, fails) if r_ < 0.8 else check_stdout(case, mods, fails)
             elif kind == "C10":
                 did = check_order(case, fails)
             elif kind == "C11":
